@@ -740,6 +740,14 @@ def le_u32_source(W, t):
         nm = callee_name(t[1])
         if nm == "from_le_bytes" and t[2]:
             src = values.strip_payload(W.expand(t[2][0]))
+            for _ in range(4):
+                # `s.get(a..b).and_then(|x| x.try_into().ok()).ok_or(E)?`, `<[u8; 4]>::try_from(&s[a..b]).map_err(..)?`: still those bytes
+                s2 = values.strip_payload(through_conversions(src)[0])
+                if is_call(s2) and callee_name(s2[1]) in ("try_into", "try_from", "copied", "cloned", "as_ref", "deref") and s2[2]:
+                    s2 = values.strip_payload(W.expand(s2[2][0]))
+                if s2 == src:
+                    break
+                src = s2
             if isinstance(src, tuple) and src and src[0] == "obj":
                 seq = W.buffer_seq(src)
                 ev = W.ev(src[1])
